@@ -654,6 +654,21 @@ func (w *World) reportApplyError(r *Replica, err error, h int64) {
 		if !isLeader {
 			props = append(props, "C01")
 		}
+		// where it panicked tells which rule could not be carried out
+		for frag, prop := range map[string]string{"unfreezingStakes": "C12", "doRewardTo": "C13", "DoPunish": "C14", "doSlashAll": "C14",
+			"applyProposals": "C15", "freezeProposals": "C15", "updateValidators": "C10", "validatorUpdates": "C10"} {
+			if strings.Contains(pe.Stack, frag) {
+				props = append(props, prop)
+			}
+		}
+		// a block whose EndBlock (refunds, fee credit, proposals, validator updates) or BeginBlock (rewards,
+		// slashing, downtime) dies has not carried out any of the rules that run there
+		if isLeader && strings.Contains(pe.Stack, "RigoApp).EndBlock") {
+			props = append(props, "C10", "C12", "C15", "C16")
+		} else if isLeader && strings.Contains(pe.Stack, "RigoApp).BeginBlock") {
+			props = append(props, "C13", "C14")
+		}
+		sort.Strings(props)
 		v := w.violate("apply.panic", props, h, "replica %s: %s @ %s", r.Name, pe.Val, pe.Stack)
 		v.Shape = panicShape(pe)
 	} else if strings.Contains(err.Error(), "would result in empty set") {
